@@ -4,8 +4,11 @@ SPEC = {
     "gen": [],
     "streams": [
         {"name": "sched", "cmd": "sched",
-         "args": {"quick": ["-cases", "140"], "thorough": ["-cases", "3000"]},
+         "args": {"quick": ["-cases", "120"], "thorough": ["-cases", "3000"]},
          "search_args": ["-cases", "700"]},
+        {"name": "beacon", "cmd": "sched",
+         "args": {"quick": ["-mode", "beacon", "-cases", "40"], "thorough": ["-mode", "beacon", "-cases", "700"]},
+         "search_args": ["-mode", "beacon", "-cases", "300"]},
     ],
     "trusted_base": [
         "Coq 8.16.1 kernel (coqc; coqchk in the thorough tier); no native_compute",
@@ -14,7 +17,9 @@ SPEC = {
         "vm_compute evaluation of Verif.Sched.Elect.run_epoch and of the proved-sound checker Verif.Sched.ElectSpec.impl_ok_b on the recorded cases (no extraction)",
         "identifier encoding: 32-byte keys, 21-byte staking addresses and runtime namespaces are compared as big-endian numbers (= bytes.Compare on equal lengths); an entity is identified by its staking address",
         "CapabilityTEE.Verify is abstract (its verdict is a model input); the harness only produces TEE capabilities whose attestation does NOT verify, so the accepting branch of a TEE runtime is covered by the proof only",
-        "not modelled: DebugForceElect, reward distribution, how the beacon application derives PrevVRFState / node ElectionEligibleAfter, what emits the TakeEscrowEvent that triggers a re-election",
+        "beacon stream: harness/cmd/sched -mode beacon + verif-tagged go/consensus/cometbft/apps/beacon/export_verif.go drives the real beacon application (VRF backend, production timekeeping: BeginBlock, VRFProve transactions with real ECVRF proofs) and compares epoch, scheduled transition, VRF state (alpha as a hash expression, proofs, PrevState), stored entropy and every node's ElectionEligibleAfter after each operation with Verif.Sched.Beacon.btrace; hashes (alpha, entropy) are expressions whose inputs are compared, not their bytes",
+        "slashing inside a block is driven through the real staking SlashEscrow (which emits the TakeEscrowEvent) and a node freeze before the scheduler's BeginBlock; the evidence handling that decides to slash (staking/roothash apps) is not modelled",
+        "not modelled: DebugForceElect, reward distribution, the DebugMockBackend timekeeping path of the VRF backend, the registry transaction that resets ElectionEligibleAfter (its effect is the ORegister operation)",
     ],
     "assumptions": [
         "scheduler parameters are non-negative; the count bound is max(1, MaxValidators) because the limit is checked after the insertion (InitChain rejects MaxValidators <= 0; a governance change is unchecked, see max_validators_zero_elects_one_refuted)",
@@ -22,12 +27,14 @@ SPEC = {
         "diff_applies needs both sets to be maps (unique keys: they are Go maps) and pending powers non-zero (proved: elect_powers_nonzero)",
         "validators_by_descending_stake_vrf: under sortition only entities with a node that submitted a VRF proof take part (sortNodesByHashedBeta drops the others), hashed betas pairwise distinct (no TupleHash collision)",
         "engine_tracks_elected: the engine applies an update list as upsert/remove by key (what CometBFT does); blocks_ok is what updateValidators emits, its premises are proved for every elected set (core_keys_nodup, elect_powers_nonzero)",
+        "late_registration_ineligible: the registry resets ElectionEligibleAfter to EpochInvalid on a new / expired / VRF-key-changing registration (registry/transactions.go:399-426, modelled as ORegister); epochs stay below EpochInvalid",
+        "prove_order_irrelevant: the reordered VRFProve transactions come from pairwise different nodes (two proofs of one node do not commute: the first wins)",
         "beacon backend insecure or VRF; consensus feature version either below or at 26.1",
     ],
 }
 
 MANIFEST = {
     "technique": "Coq proof (executable Gallina port of node filtering, validator election, validator diff and executor committee election (entropy and VRF sortition, TEE capability), election trigger, parameterised by the shuffles / hashed betas; soundness and ordering theorems for all inputs and all permutations) with differential correspondence check against the real scheduler application",
-    "level_text": "Theorems in coq/Props/C14.v hold for every registry, ledger, parameter set and every tie-breaking permutation: elected validators and committee members are registered, unexpired, unfrozen, carry the role / active runtime version and have an entity whose escrow covers its claims; count, per-entity and exact-size limits hold; validators are taken by descending stake; voting power is monotone and positive; the result depends only on the sets of nodes and accounts; the validator updates applied in any order give exactly the elected set and, over any sequence of blocks, the engine holds exactly the tracked current set; the same soundness holds for VRF sortition with any beta hashing; the boolean validator and committee checkers are sound. The model is tied to the code by running the real Application.elect + EndBlock on seeded mock states (1-10 successive blocks per case, insecure and VRF beacon backends) and comparing validators with power, updates and committees exactly with the model evaluated inside Coq on the same inputs and the index lists actually used, by evaluating the proved-sound checker on the implementation's output, by running every case twice with different state insertion orders, and by an independent Go oracle of eligibility and limits.",
+    "level_text": "Theorems in coq/Props/C14.v hold for every registry, ledger, parameter set and every tie-breaking permutation: elected validators and committee members are registered, unexpired, unfrozen, carry the role / active runtime version and have an entity whose escrow covers its claims; count, per-entity and exact-size limits hold; validators are taken by descending stake; voting power is monotone and positive; the result depends only on the sets of nodes and accounts; the validator updates applied in any order give exactly the elected set and, over any sequence of blocks, the engine holds exactly the tracked current set; the same soundness holds for VRF sortition with any beta hashing; the boolean validator and committee checkers are sound; exact sizes (validators = min(available, limit), committees = group + backup size); a whole block incl. slashing is sound against the post-slash state; the beacon side (VRF state, eligibility, entropy) is a function of the block history independent of proof delivery order, and a node registered in the current or previous epoch is never committee-eligible. The model is tied to the code by running the real Application.elect + EndBlock on seeded mock states (1-10 successive blocks per case, insecure and VRF beacon backends) and comparing validators with power, updates and committees exactly with the model evaluated inside Coq on the same inputs and the index lists actually used, by evaluating the proved-sound checker on the implementation's output, by running every case twice with different state insertion orders, and by an independent Go oracle of eligibility and limits.",
     "level_note": "Trusted: Coq kernel; the harness and the verif-tagged export wrapper; the DRBG/math.rand shuffles are abstract permutations (their index lists are fed to the model). Not covered: the accepting branch of TEE attestation verification in K, DebugForceElect, rewards, the beacon application's derivation of the VRF state.",
 }
